@@ -225,6 +225,8 @@ def main(tier, seed):
         mask, fdk, mcode = ifam.decode(m)
         for nm in ifam.bits_names(mask):
             model_mismatch[nm] = model_mismatch.get(nm, 0) + 1
+    import icheck
+    n_viol += min(2, icheck.report_unattributed(PROP, v, masks, sub, ref_charts))
     for fn, out in fails:
         n_viol += 1
         v.violation(dict(property=PROP, broken='correspondence lemma file did not evaluate', file=fn, log=out), tag='coq',
